@@ -22,10 +22,13 @@ import (
 // inflect (C20): Pluralize / Singularize.
 //
 // seq  case: {"kind":"irregular"|"uninflected"|"random","dir","word","expect","style","prefix","boundary"} (random: "text": cps)
-//      conc: {"input": cps, "lead": cps (prefix+boundary), "law": bool, "alone": cps}
-//      obs : {"panicked","out","alone_out","again","table_ok"}
+//
+//	conc: {"input": cps, "lead": cps (prefix+boundary), "law": bool, "alone": cps}
+//	obs : {"panicked","out","alone_out","again","table_ok"}
+//
 // conc case: {"kind":"conc","g":N,"keys":[strings],"reps":N}
-//      obs : {"events":[{"ev","g","k","v"}], "reference":[[k,v]...], "race":bool, "crashed":bool}
+//
+//	obs : {"events":[{"ev","g","k","v"}], "reference":[[k,v]...], "race":bool, "crashed":bool}
 type inflectFam struct{}
 
 func init() {
